@@ -34,7 +34,48 @@ func inconclusive(u *harness.Unit, f *harness.Failure) bool {
 }
 
 // compileLive compiles l.Expr; a compile error or panic on a generated valid expression is a failure.
+// noise: things that FAIL, done in the same process right before a case (one case in
+// eight, chosen by a hash of the expression): compilations the parser or the builder
+// rejects and evaluations that abort half-way inside functions that use pooled or shared
+// resources (string builders, the pattern cache, closures). None of this may change what
+// the case itself computes afterwards; whatever such an event leaves behind - a builder
+// handed back dirty, a failed load remembered, a counter not given back - shows as a
+// wrong answer of the differential check that follows.
+var noiseCompile = []string{"a[", "'abc", "p:q(", "a/(b", "count(", "f(x)", "a b", "//", "1 +", "matches('a', '(')"}
+var noiseEvaluate = []string{
+	"concat('k', 'l', sum('x'))", "normalize-space(concat('q', sum('y')))", "string-join(//a, contains(1, 1))",
+	"translate('abc', 'a', sum('z'))", "matches('a', concat('(', ''))", "replace('a', concat('[', ''), 'r')",
+	"//a[contains(., 1)]", "concat(name(//a), sum(string(//a)))", "substring-after('x', sum('w'))", "reverse(1)",
+	"//a[position() = sum('v')]", "count(//a[last() = sum('u')])",
+}
+var noiseDoc = xdoc.MustParse("<a x='1'><a>{t}</a><b/></a>")
+
+func noise(l *harness.Live) {
+	h := harness.Hash64(l.Expr)
+	if h%8 != 1 {
+		return
+	}
+	for i := uint64(0); i < 3; i++ {
+		func() {
+			defer func() { _ = recover() }()
+			_, _ = xpath.Compile(noiseCompile[(h/8+i*7)%uint64(len(noiseCompile))])
+		}()
+		func() {
+			defer func() { _ = recover() }()
+			e, err := xpath.Compile(noiseEvaluate[(h/64+i*5)%uint64(len(noiseEvaluate))])
+			if err != nil {
+				return
+			}
+			it := e.Select(noiseDoc.Nav(xdoc.NS, noiseDoc.Root, &xdoc.Budget{Limit: 100000}))
+			for k := 0; k < 3 && it.MoveNext(); k++ {
+			}
+			_ = e.Evaluate(noiseDoc.Nav(xdoc.NS, noiseDoc.Root, &xdoc.Budget{Limit: 100000}))
+		}()
+	}
+}
+
 func compileLive(l *harness.Live) (*xpath.Expr, *harness.Failure) {
+	noise(l)
 	e, err, pan := harness.Compile(l.Expr, l.NSMap, l.HasNS)
 	if pan != nil {
 		return nil, harness.Failf("expression compiles", pan.String(), "Compile panicked")
